@@ -24,7 +24,7 @@ LEVEL_NOTE = "Tolerances 1e-9*h on depth identities; N = 1 has no level pair: in
 RULE = ("case = chunk of random parameter points; every point calls s_stretch (rho,w), sdepth (rho,w) and z2s for ~40 depths per column; some chunks build a real "
         "ROMS.Grid from a generated file and from Vinfo. Non-trivial point: N >= 2 and stretched (theta_s > 0.5); distinct by rounded parameters.")
 MANDATORY = ["post_s_stretch", "post_sdepth", "post_z2s", "vtransform1", "vtransform2", "vstretching1", "vstretching2", "vstretching4",
-             "depth_above_surface", "depth_below_bottom", "depth_on_level", "grid_from_file", "grid_from_vinfo", "N1", "vinfo_dictionary_reused"]
+             "depth_above_surface", "depth_below_bottom", "depth_on_level", "grid_from_file", "grid_from_vinfo", "N1", "vinfo_dictionary_reused", "grid_file_without_Vtransform", "grid_file_with_Vstretching"]
 ASSUMPTIONS = ["zeta = 0 (ladim ignores sea-surface elevation)", "Vtransform 1 only with hc <= min(h), as the property quantifies"]
 TIMEOUT = {"quick": 600, "thorough": 3000}
 
@@ -203,6 +203,8 @@ def run_case(case: dict[str, Any], wd: Path) -> dict[str, Any]:
     else:
         p = _params(rng)
         p["N"] = max(2, p["N"] % 25)
+        if case["idx"] % 4 == 0:
+            p["Vtransform"] = 1  # these cases write a file without the Vtransform variable
         hmin, hmax = 5.0, float(rng.choice([50.0, 800.0, 4000.0]))
         hc = float(rng.uniform(0, hmin)) if p["Vtransform"] == 1 else float(rng.choice([5.0, 20.0, 250.0]))
         p["hc"] = hc
@@ -210,6 +212,12 @@ def run_case(case: dict[str, Any], wd: Path) -> dict[str, Any]:
         spec = dict(imax=9, jmax=8, N=p["N"], t0=C.T0, frames=[0, 3600], files=[2], vel=dict(kind="zero"),
                     h=dict(kind="random", hmin=hmin, hmax=hmax, seed=case["idx"]),
                     vert=dict(Vtransform=p["Vtransform"], Vstretching=p["Vstretching"], theta_s=p["theta_s"], theta_b=p["theta_b"], hc=hc))
+        if p["Vtransform"] == 1 and case["idx"] % 4 == 0:
+            spec["vert"]["write_Vtransform"] = False  # files of older ROMS versions carry no Vtransform variable: transform 1
+            bump("grid_file_without_Vtransform")
+        if case["idx"] % 3 == 0:
+            spec["vert"]["write_Vstretching"] = True
+            bump("grid_file_with_Vstretching")
         w = W.write_world(wd / "w", spec)
         sub = [2, 7, 1, 6] if rng.random() < 0.5 else None
         vinfo = dict(N=p["N"], hc=hc, theta_s=p["theta_s"], theta_b=p["theta_b"], Vstretching=p["Vstretching"], Vtransform=p["Vtransform"])
